@@ -63,7 +63,7 @@ UN_VOID = ["D", "I", "D2", "ABS", "SQRT", "LOG", "EXP", "SIGN", "DIODE", "COS", 
 UN_AGG = ["SUM", "AVG", "VAR", "STD", "MSE", "RMSE", "MAD", "MIN", "MAX", "MEDIAN", "ARGMIN", "ARGMAX"]
 UN_ALL = ["neg"] + UN_VOID + UN_AGG
 UN_REP = ["neg", "D", "I", "ABS", "SQRT", "SUM", "MAX", "MAD"]
-UN_DECO = {"quick": [], "thorough": ["neg", "D", "SUM", "MAD"]}
+UN_DECO = {"quick": ["SUM"], "thorough": ["neg", "D", "SUM", "MAD"]}
 FEATS = ["a", "b", "n"]
 VIRTUAL = ["x", "y", "z", "t", "idx"]
 FORMS = ["bare", "c=", "a=", "x=", "y=", "z=", "a+=", "a-=", "a*=", "a/=", "a^="]
@@ -73,7 +73,7 @@ SF = {"d2": {"quick": {"min": ["bare", "c="], "full": ["bare", "c="]},
              "thorough": {"min": ["bare", "c=", "a="], "full": ["bare"]}},
       "d3": {"quick": {"min": ["bare"], "full": ["bare"]},
              "thorough": {"min": ["bare", "c="], "full": ["bare", "c="]}},
-      "d3+unary": {"thorough": {"min": ["bare"], "full": ["bare"]}}}
+      "d3+unary": {"quick": {"min": ["bare"], "full": []}, "thorough": {"min": ["bare"], "full": ["bare"]}}}
 
 # operator objects that correspond to the syntax (own table, independent of Operator.NAMES_DICT_*)
 OBJ_BIN = {"+": "ADDER", "-": "SUBSTRACTER", "*": "MULTIPLIER", "/": "DIVIDER", "^": "POWER", ">": "ABOVE", "<": "BELOW"}
@@ -119,7 +119,7 @@ _OB_ALL.update({
     "depth/0": "a defined leaf expression", "depth/1": "a defined depth-1 tree", "depth/2": "a defined depth-2 tree",
     "depth/3": "a defined depth-3 tree",
 })
-OBLIGATIONS = {"all": _OB_ALL, "quick": {}, "thorough": {"depth/4": "a defined depth-3 bracketing carrying one more unary operator"}}
+OBLIGATIONS = {"all": dict(_OB_ALL, **{"depth/4": "a defined depth-3 bracketing carrying one more unary operator"}), "quick": {}, "thorough": {}}
 
 
 # ---------------------------------------------------------------------------
@@ -1178,9 +1178,10 @@ def bounds(tier, variant):
          "subtrees_depth_le_1_used_at_depth_2": len(_subs_d2(tier, variant)),
          "depth_3": "4 bracketings of depth 3 x 7^3 operators x %d^4 leaves" % len(leaves_d3(variant)),
          "direct_operator_cases_per_size": sum(1 for _ in direct_specs(variant))}
+    b["depth_3_plus_unary"] = ("%s bracketings, one unary of %s at each of the 7 positions, bare form, %s"
+                               % ("all 5" if tier == "thorough" else "the 4 depth-3", UN_DECO[tier],
+                                  "both renderings" if tier == "thorough" else "minimal-parentheses rendering"))
     if tier == "thorough":
-        b["depth_3_plus_unary"] = ("all 5 bracketings, one unary of %s at each of the 7 positions, bare form, both renderings"
-                                   % UN_DECO[tier])
         b["other_variants"] = "the quick space of all four alphabet variants"
     return b
 
